@@ -523,10 +523,34 @@ hs_dict = GenerateMatch(
         .setParseAction(to_dict)
 )
 
+NESTED_VERSION_RE = re.compile(r'ver:"(([^"\\]|\\[\\"bfnrt$])+)"')
+
+
+class _NestedGrid(pp.Token):
+    """
+    A grid nested in a cell is read, like a top-level grid, with the grammar
+    of the version it declares: the dumper writes it by that version's rules.
+    """
+
+    def __init__(self):
+        super(_NestedGrid, self).__init__()
+        self.name = 'grid'
+
+    def parseImpl(self, instring, loc, doActions=True):
+        ver_match = NESTED_VERSION_RE.match(instring, loc)
+        if ver_match is None:
+            raise pp.ParseException(instring, loc, 'Expected ver:"..."', self)
+        try:
+            grammar = hs_grid[Version(ver_match.group(1))]
+        except ValueError:
+            raise pp.ParseException(instring, loc, 'Unrecognised version', self)
+        return grammar._parse(instring, loc, doActions)
+
+
 hs_inner_grid = GenerateMatch( \
     lambda ver: And([
         Suppress(Regex(r'<< *')),
-        hs_grid[ver],
+        _NestedGrid(),
         Suppress(Regex(r' *>>')),
     ]))
 
